@@ -16,7 +16,7 @@ EXTENDS Naturals, Sequences, FiniteSets
 VARIABLES owner,     \* function address -> owning thread (domain = blocks currently owned)
           seen,      \* every address ever handed out (and not given back to the system by clear)
           nodes,     \* heap nodes of an internal list that currently exist (boxed Treiber stack)
-          big,       \* addresses handed out in a size class the pool does not recycle (bump only)
+          big,       \* addresses handed out in a size class above the pool's free-list threshold (huge / skip-list sizes)
           cnt        \* what the users did: na successful allocations, nr refused ones, nf frees,
                      \* nfbig frees of non-recycled blocks, maxlive = most blocks owned at one instant
 pvars == <<owner, seen, nodes, big, cnt>>
@@ -72,15 +72,16 @@ NodeDeref(n) == n \in nodes /\ UNCHANGED pvars
 
 (* quiescence: every thread finished and freed what it held; the harness then drains the pool   *)
 (* by allocating `drained` (a sequence of addresses).  Nothing is owned, no address comes out    *)
-(* twice, (pools that recycle every freed block through one shared structure) every recycled     *)
-(* block ever handed out comes out again: none was lost, and a pool of fixed capacity does not   *)
-(* hold more blocks than its capacity.                                                           *)
-Drain(drained, recycles, cap) ==
+(* twice, (pools that recycle every freed block through one shared structure) every block ever  *)
+(* handed out comes out again: none was lost, and a pool of fixed capacity does not hold more    *)
+(* blocks than its capacity.                                                                     *)
+DrainOf(expected, drained, recycles, cap) ==
     /\ DOMAIN owner = {}
     /\ Len(drained) = Cardinality(Range(drained))
-    /\ recycles => (seen \ big) \subseteq Range(drained)
+    /\ recycles => expected \subseteq Range(drained)
     /\ cap > 0 => Len(drained) <= cap
     /\ UNCHANGED pvars
+Drain(drained, recycles, cap) == DrainOf(seen, drained, recycles, cap)
 
 (* counters reported by the pool once all threads have finished; c is a record, every pool      *)
 (* reports the fields it has:                                                                    *)
